@@ -178,6 +178,29 @@ def run(tier, seed):
     n = 120 if tier == "quick" else 2000
     cases = core.Cases(); r.last_cases = cases
     corpus_cases(cases, PROP)
+    # override chains that CROSS the workspace folder (fixed): the folder the editor opened is `ws` (or `ws/a`), the
+    # outermost definitions live in a conftest.py above it which the editor opened as a document
+    for j, wsroot in enumerate(["ws", "ws/a"]):
+        ws = wsgen.WS()
+        c0 = PyFile(); c0.fixture("foo"); c0.fixture("bar"); ws.add("conftest.py", c0)
+        c1 = PyFile(); c1.fixture("foo", params=("foo",)); c1.fixture("bar", params=("bar",)); ws.add("ws/conftest.py", c1)
+        c2 = PyFile(); c2.fixture("foo", params=("foo",)); ws.add("ws/a/conftest.py", c2)
+        t1 = PyFile(); t1.test("test_inner", params=("foo", "bar")); ws.add("ws/a/test_use.py", t1)
+        t2 = PyFile(); t2.test("test_outer", params=("foo",)); ws.add("ws/test_lvl.py", t2)
+        ws.order = list(ws.files)
+        ws.meta = {"places": ["conf2", "conf1", "conf0"], "depth": 2, "k": 3, "workspace_folder": wsroot}
+        name = "up%d" % j
+        cases.case(name, ws.meta)
+        tids = {}
+        for i, (p, pf) in enumerate(ws.files.items()):
+            tids[p] = "t%d" % i
+            cases.text(tids[p], pf.text()); cases.raw("disk %s %s" % (p, tids[p]))
+        cases.op("wsroot", wsroot)
+        for p in ws.order:
+            cases.op("analyze", p, tids[p])
+        wsgen.emit_queries(cases, ws, probes=("goto", "fat", "fod"))
+        for p in ws.files:
+            cases.q("defs", p); cases.q("usages", p)
     for i in range(n):
         ws = gen_chain(r.rng)
         name = "ch%d" % i
